@@ -188,6 +188,43 @@ func init() {
 			}
 		}})
 
+	register(&Obligation{ID: "C18.f", Props: []string{"C18", "C07"}, Template: "value-identity",
+		Desc: "every compaction step works on the level list as it is when the step starts: the argument of Compactor.Compact in dkv.(*DB).rotateMemtable's compaction task is db.currentSSTables() evaluated inside the loop iteration (directly, or through a local defined once inside the loop body), never a list captured when the task was queued or carried over from the previous step",
+		Run: func(r *Run) {
+			f := r.P.Func("dkv", "(*DB).rotateMemtable")
+			info := f.Pkg.TypesInfo
+			compact := r.P.FuncObj("dkv/sst", "(*Compactor).Compact")
+			current := r.P.FuncObj("dkv", "(*DB).currentSSTables")
+			n := 0
+			ast.Inspect(f.Decl.Body, func(nd ast.Node) bool {
+				loop, ok := nd.(*ast.ForStmt)
+				if !ok {
+					return true
+				}
+				ast.Inspect(loop.Body, func(m ast.Node) bool {
+					call, ok := m.(*ast.CallExpr)
+					if !ok || r.P.CalleeFunc(info, call) != compact || len(call.Args) != 1 {
+						return true
+					}
+					n++
+					r.Site(call.Pos(), "Compact(level list read at the start of the step)")
+					arg := resolveLocal(info, loop.Body, call.Args[0]) // only definitions INSIDE the loop body count
+					c2, isCall := ast.Unparen(arg).(*ast.CallExpr)
+					if obj := prog.IdentObj(info, call.Args[0]); obj != nil && (obj.Pos() < loop.Body.Pos() || obj.Pos() > loop.Body.End()) {
+						isCall = false // a variable that lives across iterations (or was captured when the task was queued)
+					}
+					if !isCall || r.P.CalleeFunc(info, c2) != current {
+						r.Fail(f.Name()+"$compaction:fresh-input", call.Pos(), nil, "the compaction step does not start from db.currentSSTables() read in this iteration: a step queued behind a running one (or following its own swap) would compact a stale level list, re-merge tables that were already merged and removed, and add a second, overlapping run of older data to the target level")
+					}
+					return true
+				})
+				return true
+			})
+			if n == 0 {
+				r.Error("undecided: rotateMemtable has no loop calling Compactor.Compact")
+			}
+		}})
+
 	register(&Obligation{ID: "C18.c", Props: []string{"C18"}, Template: "must-precede.err-checked",
 		Desc: "a compaction returns a change set only if the scan error and the table writer's error were both tested nil",
 		Run: func(r *Run) {
